@@ -516,6 +516,17 @@ func (p *Prog) enclosingFunc(pos token.Pos) *FuncInfo {
 			return fi
 		}
 	}
+	// a position inside a helper that was expanded in place belongs to the function it was expanded into
+	for _, h := range p.inlineHosts {
+		if h.From <= pos && pos < h.To {
+			for _, fi := range p.byObj {
+				if fi.Decl == h.Host {
+					return fi
+				}
+			}
+			return p.enclosingFunc(h.Host.Pos())
+		}
+	}
 	return nil
 }
 
@@ -708,4 +719,64 @@ func typeRole(o types.Object) string {
 // they survive a renaming of locals and parameters.
 func roleStr(info *types.Info, e ast.Node) string {
 	return canonStr(info, e)
+}
+
+// exprIdentity renders an expression so that two renderings are equal exactly
+// when the expressions have the same shape over the same objects (a local is
+// rendered by the position of its declaration, not by its name).
+func exprIdentity(info *types.Info, e ast.Expr) string {
+	var sb strings.Builder
+	var w func(n ast.Node)
+	w = func(n ast.Node) {
+		switch x := n.(type) {
+		case *ast.Ident:
+			o := info.Uses[x]
+			if o == nil {
+				o = info.Defs[x]
+			}
+			if o != nil && o.Pos().IsValid() {
+				sb.WriteString(x.Name + "@" + itoa(int(o.Pos())))
+			} else {
+				sb.WriteString(x.Name)
+			}
+		case *ast.ParenExpr:
+			w(x.X)
+		case *ast.SelectorExpr:
+			w(x.X)
+			sb.WriteString("." + x.Sel.Name)
+		case *ast.BinaryExpr:
+			sb.WriteString("(")
+			w(x.X)
+			sb.WriteString(" " + x.Op.String() + " ")
+			w(x.Y)
+			sb.WriteString(")")
+		case *ast.UnaryExpr:
+			sb.WriteString(x.Op.String())
+			w(x.X)
+		case *ast.StarExpr:
+			sb.WriteString("*")
+			w(x.X)
+		case *ast.IndexExpr:
+			w(x.X)
+			sb.WriteString("[")
+			w(x.Index)
+			sb.WriteString("]")
+		case *ast.CallExpr:
+			w(x.Fun)
+			sb.WriteString("(")
+			for i, a := range x.Args {
+				if i > 0 {
+					sb.WriteString(", ")
+				}
+				w(a)
+			}
+			sb.WriteString(")")
+		case *ast.BasicLit:
+			sb.WriteString(x.Value)
+		default:
+			sb.WriteString(exprStr(n))
+		}
+	}
+	w(e)
+	return sb.String()
 }
